@@ -42,13 +42,28 @@ def updateIndex (k : Kind) (idx : KV) (L : Log) : KV :=
   | .doc => docUpdate idx (values L)
   | .log => idx
 
-/-- `AddOperation`: Append → status → put `_localHeads` → update index (→ emit write). -/
-def Store.addOp (acl : Acl) (s : Store) (mk : Nat → List Nat → Entry) : Store × Except Err Entry :=
+/-- `AddOperation` as it was before the `fix:` commit of finding F33: Append → status → put
+`_localHeads := [e]` → update index (→ emit write). On a store whose log holds its cached local
+heads this is what the current code does (`addOp_eq_addOp0`). -/
+def Store.addOp0 (acl : Acl) (s : Store) (mk : Nat → List Nat → Entry) : Store × Except Err Entry :=
   match append acl.canAppend s.log mk with
   | (L', .error e) => ({ s with log := L' }, .error e)
   | (L', .ok e) =>
     let st := recalcStatus L'.entries.length s.status e.time
     ({ s with log := L', status := st, localHeads := some [e.hash], idx := updateIndex s.kind s.idx L' }, .ok e)
+
+/-- the cached heads (`cached`) the (possibly partially loaded) log `L` has no entry for -/
+def keptHeads (cached : Option (List Nat)) (L : Log) : List Nat :=
+  (cached.getD []).filter (fun h => !has L.entries h)
+
+/-- `AddOperation`: Append → status → put `_localHeads` → update index (→ emit write). The heads
+written are the new entry followed by the cached local heads the log has no entry for: the new entry
+names the heads of the log IN MEMORY, which covers the cached local head only if the log holds it —
+a store opened with `Load(n)` or `LoadFromSnapshot` may not (finding F33). -/
+def Store.addOp (acl : Acl) (s : Store) (mk : Nat → List Nat → Entry) : Store × Except Err Entry :=
+  match s.addOp0 acl mk with
+  | (s', .error e) => (s', .error e)
+  | (s', .ok e) => ({ s' with localHeads := some (e.hash :: keptHeads s.localHeads s'.log) }, .ok e)
 
 /-- outcome of the per-head pre-check loop of `Sync` on heads that carry this log's id and a valid signature -/
 def syncPrecheck0 (acl : Acl) : List Entry → Err
@@ -82,10 +97,6 @@ def Store.loadEnd0 (acl : Acl) (s : Store) (logs : List (OMap × OMap)) : Store 
   let len : Int := L'.entries.length
   let st := if len > s.status.progress then recalcStatus len s.status len else s.status
   { s with log := L', idx := idx, remoteHeads := some heads, status := st }
-
-/-- the cached remote heads the (possibly partially loaded) log `L` has no entry for -/
-def keptHeads (cached : Option (List Nat)) (L : Log) : List Nat :=
-  (cached.getD []).filter (fun h => !has L.entries h)
 
 /-- `replicationLoadComplete(logs)`: join, update the index, put `_remoteHeads`, update the status.
 The heads written are the heads of the merged log followed by the cached remote heads the log has no
